@@ -6,7 +6,7 @@ import ast
 from ..astu import U, has, dotted, walk_shallow, fold, NotLiteral, call_name, calls_in, kwarg, names_in, param_names
 from ..cfg import build, find_guards
 from ..core import AnalysisError, Mutant, Rule, Twin
-from ..idioms import subscript_stores, is_not_in_test, for_loops, target_names
+from ..idioms import subscript_stores, is_not_in_test, for_loops, target_names, none_default
 from ..tables import Undecided, language, parse_regex
 
 ID = "C12"
@@ -398,6 +398,85 @@ def r7_inactive_predicate(ctx):
         ctx.check(ok, a, "leading-bracket-closes-at-end", "the predicate must track the bracket depth and answer, at the first return to depth 0, whether that position is the last character "
                   "(balanced brackets alone also accept keys such as '(NH4)3(PO4)')", node=fn)
         ctx.check(has(fn, "depth = 0"), a, "depth-starts-at-0", "bracket depth must start at 0", node=fn)
+        last = fn.body[-1]
+        ctx.check(isinstance(last, ast.Return) and U(last.value) == "False", a, "never-closed->not-a-group", "a term whose leading bracket is never closed is not an inactive group", node=last)
+
+
+def r8_arms(ctx):
+    """which arm runs for which number of tokens/fields; verdict values of __eq__; omitted coefficient is exactly 1"""
+    pm = ctx.func(PARSING, "_parse_multiplicity")
+    a = PARSING + ":_parse_multiplicity"
+    lp = [f for f in for_loops(pm) if "re.split" in U(f.iter)]
+    if len(lp) != 1:
+        raise AnalysisError("_parse_multiplicity: term loop not found")
+    lp = lp[0]
+    chain_ = [s_ for s_ in lp.body if isinstance(s_, ast.If)]
+    arms = {}
+    node = chain_[0] if chain_ else None
+    last_else = None
+    while isinstance(node, ast.If):
+        t = node.test
+        if isinstance(t, ast.Compare) and len(t.ops) == 1 and isinstance(t.ops[0], ast.Eq) and U(t.left) == "len(items)" and isinstance(t.comparators[0], ast.Constant):
+            arms[t.comparators[0].value] = node.body
+        else:
+            arms["?" + U(t)] = node.body
+        last_else = node.orelse
+        node = node.orelse[0] if len(node.orelse) == 1 and isinstance(node.orelse[0], ast.If) else None
+    ctx.check(set(arms) == {0, 1, 2}, a, "arms-by-token-count", "terms are handled by their number of tokens: 0 (skip), 1 (key), 2 (coefficient key); found arms %s" % sorted(map(str, arms)), node=lp)
+    if set(arms) == {0, 1, 2}:
+        ctx.check(len(arms[0]) == 1 and isinstance(arms[0][0], ast.Continue), a, "empty-term-skipped", "an empty term contributes nothing", node=lp)
+        u1 = subscript_stores(arms[1], "result")
+        ok = [(U(u.key), u.kind, U(u.value)) for u in u1 if u.kind != "="] == [("items[0]", "+=", "1")] and all(u.kind != "=" or (U(u.key) == "items[0]" and U(u.value) == "0") for u in u1)
+        ctx.check(ok, a, "bare-key-counts-1", "a bare key adds exactly 1 under that key; found %s" % [(U(u.key), u.kind, U(u.value)) for u in u1], node=lp)
+        u2 = subscript_stores(arms[2], "result")
+        inc = [u for u in u2 if u.kind != "="]
+        ok = len(inc) == 1 and U(inc[0].key) == "items[1]" and inc[0].kind == "+=" and all(u.kind != "=" or (U(u.key) == "items[1]" and U(u.value) == "0") for u in u2)
+        if ok:
+            v = inc[0].value
+            ok = isinstance(v, ast.IfExp) and U(v.body) == "float(items[0])" and U(v.orelse) == "int(items[0])" and isinstance(v.test, ast.BoolOp) and isinstance(v.test.op, ast.Or) \
+                and sorted(U(x) for x in v.test.values) == ["'.' in items[0]", "'e' in items[0]"]
+        ctx.check(ok, a, "coefficient-then-key", "`n key` adds n (float when written with '.' or 'e', else int) under the key; found %s" % [(U(u.key), u.kind, U(u.value)) for u in u2], node=lp)
+        ctx.check(bool(last_else) and isinstance(last_else[-1], ast.Raise), a, "too-many-tokens-refused", "a term with more than two tokens must be refused", node=lp)
+    ctx.check(has(lp, "items = [x for x in items if x != '']"), a, "empty-tokens-dropped", "empty tokens from repeated separators are dropped (and only those)", node=lp)
+    init = [n for n in pm.body if isinstance(n, ast.Assign) and U(n.targets[0]) == "result"]
+    ctx.check(len(init) == 1 and U(init[0].value) in ("{}", "dict()"), a, "starts-empty", "the side starts empty", node=pm)
+    tr = ctx.func(PARSING, "to_reaction")
+    a = PARSING + ":to_reaction"
+    ctx.check(has(tr, "parts = line.rstrip('\\n').split(';')") and has(tr, "stoich = parts[0].strip()"), a, "field0=stoichiometry", "the text before the first ';' is the stoichiometry", node=tr)
+    ctx.check(has(tr, "if len(parts) > 1: param = parts[1].strip() else: param = kwargs.pop('param', 'None')"), a, "field1=parameter", "the second field, when present, is the parameter", node=tr)
+    ctx.check(has(tr, "if len(parts) > 2: kwargs.update(eval('dict(' + ';'.join(parts[2:]) + '\\n)', globals_ or {}))"), a, "field2+=keywords", "fields from the third on are keyword arguments", node=tr)
+    ctx.check(has(tr, "if token not in stoich: raise ValueError("), a, "missing-arrow-refused", "a line without the arrow token is refused", node=tr)
+    ctx.check(has(tr, "if param.startswith(\"'\") and param.endswith(\"'\") and (\"'\" not in param[1:-1]):") and has(tr, "param = MassAction(Symbol(unique_keys=(param[1:-1],)))"), a, "quoted-parameter=named",
+              "a parameter in single quotes is a named rate constant with the name between the quotes", node=tr)
+    ctx.check(has(tr, "param = None if globals_ is False else eval(param, globals_)"), a, "parameter-evaluated", "any other parameter text is evaluated (unless evaluation is switched off)", node=tr)
+    d = none_default(tr, "globals_")
+    ctx.check(d is not None and U(d) == "get_parsing_context()", a, "default-context", "the evaluation context defaults only when None", node=tr)
+    eq = ctx.func(CHEM, "Reaction.__eq__")
+    a = CHEM + ":Reaction.__eq__"
+    ctx.check(has(eq, "if lhs is rhs: return True"), a, "identical->True", "an object equals itself", node=eq)
+    ctx.check(has(eq, "if not isinstance(lhs, Reaction) or not isinstance(rhs, Reaction): return NotImplemented"), a, "foreign->NotImplemented", "comparison with a non-reaction is not decided here", node=eq)
+    ctx.check(has(eq, "if getattr(lhs, attr) != getattr(rhs, attr): return False"), a, "different->False", "a differing attribute makes the reactions unequal", node=eq)
+    last = eq.body[-1]
+    ctx.check(isinstance(last, ast.Return) and U(last.value) == "True", a, "all-equal->True", "reactions whose compared attributes all agree are equal", node=last)
+    rp = ctx.func(STR, "StrPrinter._Reaction_parts")
+    a = STR + ":StrPrinter._Reaction_parts"
+    ctx.check(has(rp, "(coeff_fmt(v) + space if v != 1 else nullstr) + formula_fmt("), a, "coefficient-omitted-iff-1", "a coefficient is left out exactly when it is 1 (the reader supplies 1)", node=rp)
+    ctx.check(has(rp, "for k, v in filter(itemgetter(1), d.items())"), a, "zero-entries-not-printed", "entries with coefficient 0 are not printed", node=rp)
+    pr = ctx.func(STR, "StrPrinter._print_Reaction")
+    a = STR + ":StrPrinter._print_Reaction"
+    ctx.check(has(pr, "if self._get('with_param', **kwargs) and rxn.param is not None:"), a, "parameter-printed-iff-present", "the parameter field is printed when asked for and present", node=pr)
+    ctx.check(has(pr, "if self._get('with_name', **kwargs) and rxn.name is not None:"), a, "name-printed-iff-present", "the name field is printed when asked for and present", node=pr)
+    fs = ctx.func(RSYS, "ReactionSystem.from_string")
+    a = RSYS + ":ReactionSystem.from_string"
+    ctx.check(has(fs, "for r in s.split('\\n') if r.strip() != '' and (not any((r.strip().startswith(tok) for tok in comment_tokens)))"), a, "blank-and-comment-lines-skipped",
+              "exactly the blank lines and the lines starting with a comment token are skipped", node=fs)
+    ctx.check(has(fs, "return cls(rxns, substances, **kwargs)"), a, "ctor(rxns,substances)", "the constructor gets (reactions, substances)", node=fs)
+    ctx.check(has(fs, "cls._BaseReaction.from_string(r, substance_keys, **rxn_parse_kwargs or {})"), a, "line->reaction", "each kept line is parsed with the allowed keys", node=fs)
+    fr = ctx.func(CHEM, "Reaction.from_string")
+    ctx.check(has(fr, "return to_reaction(string, substance_keys, cls._str_arrow, cls, globals_, **kwargs)"), CHEM + ":Reaction.from_string", "delegates(line,keys,arrow,cls)",
+              "from_string passes (line, allowed keys, its own arrow token, its own class)", node=fr)
+    ctx.check(has(fr, "if isinstance(substance_keys, str): if ' ' in substance_keys: substance_keys = substance_keys.split()"), CHEM + ":Reaction.from_string", "keys-string-split",
+              "a space separated string of keys is split into keys", node=fr)
 
 
 RULES = [
@@ -407,6 +486,7 @@ RULES = [
     Rule("C12-R4", r4_attrs, 16, "_all_attr/_cmp_attr vs constructor, __eq__, __hash__, copy"),
     Rule("C12-R5", r5_name_field, 1, "third printed field parses back"),
     Rule("C12-R6", r6_layout, 6, "printer lays out sides/coefficients in stored order"),
+    Rule("C12-R8", r8_arms, 27, "arms by token/field count, __eq__ verdicts, coefficient omitted iff 1, skipped lines"),
     Rule("C12-R7", r7_inactive_predicate, 1, "inactive-group predicate: leading bracket closed by the last character"),
 ]
 
